@@ -6,7 +6,7 @@ of role `roleOfKid kid`; whatever a cache hands out for a key id has that role. 
 cache mode (never / simple / bounded): the caches move entries around, they never retype them.
 -/
 set_option linter.unusedVariables false
-namespace AsherahVerif.Env
+namespace AsherahVerif.Env.Res
 
 section
 variable (ρ0 : RoleMap) (part : Nat) (Γ : List Fact)
@@ -394,4 +394,4 @@ theorem cacheClose_ti (c : Nat) : Preserves (TIx ρ0 part Γ) (cacheClose c) := 
     exact hw.setCache ρ0 part Γ c _ (fun m e h => by cases h) (hw.latest_ok ρ0 part Γ c)
 
 end
-end AsherahVerif.Env
+end AsherahVerif.Env.Res
